@@ -159,12 +159,65 @@ pub assume_specification<T, E> [Result::<T, E>::unwrap_or] (r: Result<T, E>, def
     ensures r is Ok ==> v == r->Ok_0, r is Err ==> v == default;
 pub assume_specification<T: Default, E> [Result::<T, E>::unwrap_or_default] (r: Result<T, E>) -> (v: T)
     ensures r is Ok ==> v == r->Ok_0;
-// ---- byte-string ordering and the sort/concat helpers used by the factory keys (ASSUMED) ----
-/// lexicographic order on byte strings (what `<[u8] as Ord>::cmp` computes): a total order
-pub uninterp spec fn lex_le(a: Seq<u8>, b: Seq<u8>) -> bool;
-pub broadcast axiom fn ax_lex_total(a: Seq<u8>, b: Seq<u8>) ensures #[trigger] lex_le(a, b) || lex_le(b, a);
-pub broadcast axiom fn ax_lex_antisym(a: Seq<u8>, b: Seq<u8>) requires #[trigger] lex_le(a, b), #[trigger] lex_le(b, a) ensures a == b;
-pub broadcast axiom fn ax_lex_trans(a: Seq<u8>, b: Seq<u8>, c: Seq<u8>) requires #[trigger] lex_le(a, b), #[trigger] lex_le(b, c) ensures lex_le(a, c);
+// ---- byte-string ordering (DEFINED and proved a total order) and the sort/concat helpers used by the factory keys (ASSUMED) ----
+/// lexicographic order on byte strings (what `<[u8] as Ord>::cmp` computes, and the order cw-storage-plus ranges iterate in)
+#[verifier::opaque]
+pub open spec fn lex_le(a: Seq<u8>, b: Seq<u8>) -> bool decreases a.len() {
+    if a.len() == 0 { true } else if b.len() == 0 { false }
+    else if a[0] != b[0] { a[0] < b[0] } else { lex_le(a.drop_first(), b.drop_first()) }
+}
+pub broadcast proof fn ax_lex_total(a: Seq<u8>, b: Seq<u8>) ensures #[trigger] lex_le(a, b) || lex_le(b, a) decreases a.len() {
+    reveal_with_fuel(lex_le, 2);
+    if a.len() > 0 && b.len() > 0 && a[0] == b[0] { ax_lex_total(a.drop_first(), b.drop_first()); }
+}
+pub broadcast proof fn ax_lex_antisym(a: Seq<u8>, b: Seq<u8>) requires #[trigger] lex_le(a, b), #[trigger] lex_le(b, a) ensures a == b decreases a.len() {
+    reveal_with_fuel(lex_le, 2);
+    if a.len() > 0 && b.len() > 0 {
+        ax_lex_antisym(a.drop_first(), b.drop_first());
+        assert(a =~= seq![a[0]] + a.drop_first());
+        assert(b =~= seq![b[0]] + b.drop_first());
+    } else { assert(a =~= b); }
+}
+pub broadcast proof fn ax_lex_trans(a: Seq<u8>, b: Seq<u8>, c: Seq<u8>) requires #[trigger] lex_le(a, b), #[trigger] lex_le(b, c) ensures lex_le(a, c) decreases a.len() {
+    reveal_with_fuel(lex_le, 2);
+    if a.len() > 0 && b.len() > 0 && c.len() > 0 && a[0] == b[0] && b[0] == c[0] { ax_lex_trans(a.drop_first(), b.drop_first(), c.drop_first()); }
+}
+pub open spec fn lex_lt(a: Seq<u8>, b: Seq<u8>) -> bool { lex_le(a, b) && a != b }
+/// no byte 0x00 / 0x01 (what denoms and bech32 addresses, i.e. every registry key built from asset labels, satisfy)
+pub open spec fn bytes_ge2(k: Seq<u8>) -> bool { forall|i: int| 0 <= i < k.len() ==> k[i] >= 2 }
+/// the "append a 1 byte" cursor trick (proved): for a key without bytes 0x00/0x01, being after `c ++ [1]` is being after `c`
+pub proof fn lemma_lex_push1(c: Seq<u8>, k: Seq<u8>)
+    requires bytes_ge2(k)
+    ensures lex_lt(c.push(1), k) == lex_lt(c, k)
+    decreases c.len()
+{
+    reveal_with_fuel(lex_le, 2);
+    if c.len() == 0 {
+        assert(c.push(1).drop_first() =~= Seq::<u8>::empty());
+        if k.len() > 0 { assert(k[0] >= 2); assert(c.push(1)[0] == 1); assert(lex_le(c.push(1), k)); assert(lex_le(c, k)); assert(c.push(1) != k); assert(c.len() != k.len()); }
+        else { assert(!lex_le(c.push(1), k)); assert(c =~= k); }
+    } else if k.len() == 0 {
+        assert(!lex_le(c.push(1), k)); assert(!lex_le(c, k));
+    } else {
+        assert(c.push(1).drop_first() =~= c.drop_first().push(1));
+        assert(c.push(1)[0] == c[0]);
+        if c[0] == k[0] {
+            assert(bytes_ge2(k.drop_first())) by { assert forall|i: int| 0 <= i < k.drop_first().len() implies k.drop_first()[i] >= 2 by { assert(k.drop_first()[i] == k[i + 1]); } }
+            lemma_lex_push1(c.drop_first(), k.drop_first());
+            assert(c =~= seq![c[0]] + c.drop_first());
+            assert(k =~= seq![k[0]] + k.drop_first());
+            assert(c.push(1) =~= seq![c[0]] + c.drop_first().push(1));
+            if c.drop_first() == k.drop_first() { assert(c =~= k); }
+            if c.drop_first().push(1) == k.drop_first() { assert(c.push(1) =~= k); }
+            if c == k { assert(c.drop_first() =~= k.drop_first()); }
+            if c.push(1) == k { assert(c.drop_first().push(1) =~= k.drop_first()); }
+        } else {
+            assert(lex_le(c.push(1), k) == (c[0] < k[0]));
+            assert(lex_le(c, k) == (c[0] < k[0]));
+            assert(c != k); assert(c.push(1) != k);
+        }
+    }
+}
 /// array extensionality (proved, not assumed): arrays with equal views are equal
 pub broadcast proof fn lemma_array_ext<T, const N: usize>(a: [T; N], b: [T; N])
     requires a@ =~= b@ ensures #![trigger a@, b@] a == b { assert(a =~= b); }
@@ -190,5 +243,13 @@ pub fn verif_sort_by_bytes<T: HasBytes>(v: &mut Vec<T>)
 pub open spec fn flat_upto<T>(v: Seq<Vec<T>>, n: int) -> Seq<T> decreases n { if n <= 0 { Seq::empty() } else { flat_upto(v, n - 1) + v[n - 1]@ } }
 /// D13 target: `vv.concat()` on a Vec<Vec<T>> (std: the inner vectors one after the other)
 #[verifier::external_body] pub fn verif_concat_vecs<T: Clone>(v: &Vec<Vec<T>>) -> (r: Vec<T>) ensures r@ == flat_upto(v@, v@.len() as int) { unimplemented!() }
+/// D18 target: `a.min(b)` on primitive integers (`Ord::min`)
+pub trait VerifOrdMin: Sized { spec fn as_int(self) -> int; }
+impl VerifOrdMin for u32 { open spec fn as_int(self) -> int { self as int } }
+impl VerifOrdMin for u64 { open spec fn as_int(self) -> int { self as int } }
+impl VerifOrdMin for usize { open spec fn as_int(self) -> int { self as int } }
+impl VerifOrdMin for u128 { open spec fn as_int(self) -> int { self as int } }
+#[verifier::external_body]
+pub fn verif_ord_min<T: VerifOrdMin>(a: T, b: T) -> (r: T) ensures r == (if a.as_int() <= b.as_int() { a } else { b }) { unimplemented!() }
 /// D14 target: `arr.to_vec()` (element-wise clone)
 #[verifier::external_body] pub fn verif_arr_to_vec<T, const N: usize>(a: &[T; N]) -> (r: Vec<T>) ensures r@ == a@ { unimplemented!() }
